@@ -83,7 +83,9 @@ Wrap(c, d, x) ==
     [] c = "tffinret"  -> Try(<< Mk(d, 1), Simple("ret") >>, <<>>, <<>>, << Mk(d, 5), x, Mk(d, 6) >>)
     [] c = "tebody1"   -> Try(B(d, x), << H(<<"LookupError">>, FALSE, << Mk(d, 7) >>) >>, << Mk(d, 4) >>, <<>>)
     [] c = "tebody2"   -> Try(B(d, x), << H(<<"ValueError">>, FALSE, << Mk(d, 7) >>),
-                                          H(<<"IndexError", "KeyError">>, TRUE, << Mk(d, 8), RaiseS("ValueError") >>) >>,
+                                          \* tuple: one member matches exactly (KeyError), one only by inheritance (ZeroDivisionError from an __exit__),
+                                          \* IndexError matches neither
+                                          H(<<"ArithmeticError", "KeyError">>, TRUE, << Mk(d, 8), RaiseS("ValueError") >>) >>,
                               << Mk(d, 4) >>, <<>>)
     [] c = "tebody3"   -> Try(B(d, x), << H(<<"KeyError">>, TRUE, << Mk(d, 7) >>), H(<<>>, FALSE, << Mk(d, 8) >>) >>, <<>>, <<>>)
     [] c = "tehandler" -> Try(<< Mk(d, 1), RaiseS("KeyError") >>, << H(<<"LookupError">>, FALSE, << Mk(d, 7), x, Mk(d, 8) >>) >>,
@@ -288,9 +290,17 @@ Exec(S, s, rest) ==
                                          !.g = NewId(@, id)] }
     [] s.k = "call" -> { [S EXCEPT !.ks = PushSeq(Append(rest, [k |-> "call", ln |-> s.cl]), s.body)] }
 
+(* leading marks of a block are logged together with the step of the statement that follows them *)
+(* (fewer states; the log is the same)                                                            *)
+RECURSIVE LogMarks(_, _)
+LogMarks(S, ss) == IF ss # <<>> /\ Head(ss).k = "mark" THEN LogMarks(Ev(S, Head(ss).n), Tail(ss))
+                   ELSE [S |-> S, ss |-> ss]
+
 (* the frame on top finished its current part normally *)
 NormalSteps(S, f, base) ==
-  CASE f.k = "seq" -> Exec(S, Head(f.ss), PushSeq(base, Tail(f.ss)))
+  CASE f.k = "seq" -> LET m == LogMarks(S, f.ss) IN
+                      IF m.ss = <<>> THEN { [m.S EXCEPT !.ks = base] }
+                      ELSE Exec(m.S, Head(m.ss), PushSeq(base, Tail(m.ss)))
     [] f.k = "for" -> { IF f.i > 0 THEN [S EXCEPT !.ks = PushSeq(Append(base, [f EXCEPT !.i = @ - 1]), f.body), !.lab = "for:next"]
                         ELSE ForEnd(S, base, f) }
     [] f.k = "while" -> WhileTest(S, base, f)
@@ -326,8 +336,12 @@ AbruptSteps(S, f, base, c) ==
     [] f.k = "call" /\ c.t = "exc" -> { [S EXCEPT !.ks = base, !.comp = Exc(c.e, << {f.ln} >> \o c.tb, c.id)] }
     \* brk/cont reaching a call frame: no arm -- TLC reports an error (SyntaxErr must have excluded it)
 
+(* an abrupt completion discards the rest of every block it leaves: done within the same step *)
+RECURSIVE DropSeqs(_)
+DropSeqs(ks) == IF ks # <<>> /\ Top(ks).k = "seq" THEN DropSeqs(Pop(ks)) ELSE ks
+Settle(S) == IF S.comp.t = "norm" THEN S ELSE [S EXCEPT !.ks = DropSeqs(@)]
 Steps(S) == LET f == Top(S.ks)  base == Pop(S.ks) IN
-            IF S.comp.t = "norm" THEN NormalSteps(S, f, base) ELSE AbruptSteps(S, f, base, S.comp)
+            { Settle(r) : r \in IF S.comp.t = "norm" THEN NormalSteps(S, f, base) ELSE AbruptSteps(S, f, base, S.comp) }
 
 (* origin: the kind of raise event the escaping exception comes from *)
 Outcome(S) == [t |-> S.comp.t, e |-> S.comp.e, tb |-> S.comp.tb, lab |-> S.lab,
@@ -360,17 +374,16 @@ Start == /\ st = "leaf"
                          /\ PrintT(ToJson(SynRecord(path, pg)))
                     ELSE /\ st' = "run" /\ run' = Run0(pg)
          /\ UNCHANGED path
-Step == /\ st = "run" /\ run.ks # <<>>
-        /\ \E r \in Steps(run) : run' = r
-        /\ UNCHANGED << st, path, prog >>
-Finish == /\ st = "run" /\ run.ks = <<>>
-          /\ st' = "done"
-          /\ PrintT(ToJson(Record(run)))
-          /\ UNCHANGED << path, prog, run >>
+(* one step of the machine; the step that empties the control stack ends the run and prints the behaviour *)
+Step == /\ st = "run"
+        /\ \E r \in Steps(run) :
+             /\ run' = r
+             /\ IF r.ks = <<>> THEN st' = "done" /\ PrintT(ToJson(Record(r))) ELSE st' = "run"
+        /\ UNCHANGED << path, prog >>
 Idle == st \in {"done", "skip"} /\ UNCHANGED vars     \* so that deadlock = a stuck run
 
-Next == GenCtx \/ GenLeaf \/ Start \/ Step \/ Finish \/ Idle
-NextSim == GenCtx \/ GenLeaf \/ Start \/ Step \/ Finish
+Next == GenCtx \/ GenLeaf \/ Start \/ Step \/ Idle
+NextSim == GenCtx \/ GenLeaf \/ Start \/ Step
 Spec == Init /\ [][Next]_vars
 SpecSim == Init /\ [][NextSim]_vars
 
